@@ -117,11 +117,13 @@ def run(ctx):
     ctx.count("corpus_cases", len(cases))
     big = not ctx.quick
     cases += [gen_case(rng, big) for _ in range(ctx.pick(380, 4000))]
+    # wide corpora (6500-9000 distinct bigram contexts): the gamma / n-gram streams between the stages span many buffers
+    cases += [kn.gen_wide_case(rng, k) for k in ("step", "limit-few")] + [kn.gen_wide_case(rng) for _ in range(ctx.pick(0, 30))]
     # model answers in one batch
     lines = []
     for c in cases:
         numbered = kn.number(kn.tokenize(c.data), c.skip)
-        lines.append("PRUNE %d -" % c.order if numbered is None else kn.model_line("I", c, numbered[0], numbered[1]))
+        lines.append("NOP" if c.tag.startswith("gen:wide") else "PRUNE %d -" % c.order if numbered is None else kn.model_line("I", c, numbered[0], numbered[1]))
     mout = vlib.run_lines(model, lines, timeout=ctx.pick(600, 3000)) if model else ["REFUSED 0"] * len(lines)
     spec_fail, corr_fail = [], []
     kinds = {}
@@ -137,7 +139,7 @@ def run(ctx):
             ctx.report("spec:no-termination", "lmplz does not terminate (killed after %d s): no model is written" % ctx.pick(30, 120),
                        {"case": c.to_json(), "lmplz_cmd": " ".join(run_.cmd), "stderr_tail": run_.err[-300:]})
         try:
-            ofail, corr, info = c05.judge(c, run_, mo)
+            ofail, corr, info = c05.judge(c, run_, None if c.tag.startswith("gen:wide") else mo)
         except ValueError as e:
             ofail, corr, info = None, ("correspondence:model-output", str(e)), {"accepted": False, "kind": "model-error"}
         if model is None:
@@ -192,6 +194,7 @@ def run(ctx):
         "memory_small(-S 64K..250K)": sum(1 for c in cases if c.mem and c.mem[1] in ("64K", "250K")),
         "memory_tiny(-S 600b..8K: blocks of tens of records, multi-run merges)": sum(1 for c in cases if c.mem and c.mem[1] not in ("64K", "250K")),
         "output_files_pre_existing": sum(1 for c in cases if c.stale),
+        "wide_corpus(>6500 contexts at one order; oracle only)": sum(1 for c in cases if c.tag.startswith("gen:wide")),
         "degenerate_corpus_without_words": sum(1 for c in cases if c.tag == "gen:degenerate"),
         "renumbered(--renumber/--intermediate)": sum(1 for c in cases if c.renumber or c.intermediate),
         "renumbered_with_word_sorting_before_<s>": sum(1 for c in cases if (c.renumber or c.intermediate) and
